@@ -8,6 +8,7 @@ import fcntl
 import glob
 import json
 import os
+import re
 import subprocess
 import sys
 import time
@@ -17,6 +18,9 @@ VERIF = os.path.dirname(os.path.dirname(os.path.abspath(__file__)))
 DRIVER = os.path.join(VERIF, "driver", "target", "release", "plv-driver")
 CACHE = os.path.join(VERIF, ".cache")
 REPO = os.environ.get("PLV_REPO", "/repo")
+
+
+_REEXPORT = re.compile(r"(?:[A-Za-z_][A-Za-z0-9_]*::)+_::_serde::")
 
 
 class ExtractError(Exception):
@@ -88,7 +92,9 @@ def extract(manifest_dir, out_dir, crate, all_targets=False, target_name="target
     facts = {}
     for f in sorted(glob.glob(os.path.join(out_dir, "*.json"))):
         with open(f) as fh:
-            d = json.load(fh)
+            # rustc prints serde's items through whichever `extern crate serde as _serde` (inside a derive's anonymous
+            # const) it meets first - `orders::base::_::_serde::Deserialize` - which depends on module order: normalise
+            d = json.loads(_REEXPORT.sub("serde::", fh.read()))
         if d.get("nonce") != nonce:
             raise ExtractError("stale fact file " + f)
         if any_crate or d.get("crate") == crate:
